@@ -39,7 +39,7 @@ CHECKS = {
         text="Partial: for derive-generated sync blocks chunk-independence holds by construction, checked on the generated MIR "
              "of every in-crate user and a generated family (lock-step iteration from 0, take(n), one process call per sample, "
              "no state written by work()). For hand-written blocks the bounded-copy rule and rate consistency (consume(a) with "
-             "produce(a/c) needs a multiple of c), written-before-committed, counted consume, moved-out state restored, advanced copies stored back, fills committed, no per-call limit/discard of state grown per sample, no bulk copy of a partially consumed window into carried state, output commitments are paid for by an input advance or a state change, output sized by an input window consumes from it, what is written through slice() is committed, a window processed in frames commits whole frames only, and no kernel branches on how much lies behind the samples it was asked about. Other carried-state arithmetic of hand-written blocks is not decided.",
+             "produce(a/c) needs a multiple of c), written-before-committed, counted consume, moved-out state restored, advanced copies stored back, fills committed, no per-call limit/discard of state grown per sample, no bulk copy of a partially consumed window into carried state, output commitments are paid for by an input advance or a state change, output sized by an input window consumes from it, what is written through slice() is committed, a window processed in frames commits whole frames only, no kernel branches on how much lies behind the samples it was asked about, and a copy stage consumes what it commits. Other carried-state arithmetic of hand-written blocks is not decided.",
         design="§4 C08", technique="structural rules on macro-generated MIR over a generated program family"),
     "C12": dict(
         text="Partial: the stream stores only tags of committed samples and consume(0) removes none (central contract), and on "
@@ -60,7 +60,7 @@ CHECKS = {
         design="§4 C09", technique="type facts + effect-avoiding path search + guard/verdict agreement on MIR"),
     "C02": dict(
         text="Structural necessary conditions only: who-may-write on the stream's tag map (only commit adds, only consume "
-             "removes, the read window mutates nothing), commit stores a tag only behind tag.pos() < n and under a key reduced modulo the capacity, removal sits behind n != 0, the read window uses only stable sorts, read_buf takes the state lock exactly once (window bounds and tag list are one snapshot), the ring size is counted in samples (the mapping's byte length is used only where it is divided by the element size) and no wrapping_* result is reduced modulo the capacity. The modular "
+             "removes, the read window mutates nothing), commit stores a tag only behind tag.pos() < n and under a key reduced modulo the capacity, removal sits behind n != 0, the read window uses only stable sorts, read_buf takes the state lock exactly once (window bounds and tag list are one snapshot), the ring size is counted in samples (the mapping's byte length is used only where it is divided by the element size) no wrapping_* result is reduced modulo the capacity, and the non-wrapping tag scan of consume() is chosen under a strict comparison. The modular "
              "range arithmetic of removal/re-basing (incl. consume(0)) is a value property and is not decided.",
         design="§4 C02", technique="who-may-call rule + guard dominance on MIR"),
     "C16": dict(
@@ -78,12 +78,12 @@ CHECKS = {
     "C17": dict(
         text="Abstract interpretation of the OpenOptions builder per `match mode` arm against the documented table "
              "(both sinks must agree), and must-pass analysis: stream consumption is acknowledged only behind the Ok "
-             "edges of write_all then flush on the same writer, a whole-window consume serialises the whole window, and nothing in the sink calls set_len/seek on the file. Decides the property up to the trusted OS semantics.",
+             "edges of write_all then flush on the same writer, a whole-window consume serialises the whole window, one read window per call, and nothing in the sink calls set_len/seek on the file. Decides the property up to the trusted OS semantics.",
         design="§4 C17", technique="abstract interpretation of builder flags + must-pass/dominance on MIR"),
     "C18": dict(
         text="Who-may-call, typestate and ownership rules on MIR: mmap/munmap only inside Map; every successful mmap is "
              "owned by a Map or unmapped on every path; Drop unmaps (base,len); Circ::new shrinks the first Map and "
-             "owns both; no leak primitives; MAP_SHARED constant flags, offset 0; constructor rejects bad element sizes.",
+             "owns both; no leak primitives; MAP_SHARED constant flags, offset 0; constructor rejects bad element sizes; the fixed re-map goes to the caller's address unchanged.",
         design="§4 C18", technique="call-graph who-may-call + typestate path rules on MIR"),
     "C04": dict(
         text="Static ordering/dominance analysis on MIR of the stream ends: the peer-liveness read precedes the final "
